@@ -37,6 +37,9 @@ def stmt_text(k: str, i: int, rng: random.Random, fancy: bool) -> str:
         return "@print" + sp() + str(i)
     if k == "mlprint":      # the string literal spans two physical lines
         return "@print" + sp() + str(i) + " + {'a" + rng.choice(["\n", "\r\n"]) + "b'}.count - 1"
+    if k == "esprint":      # escaped line breaks inside a literal on ONE physical line
+        lit = rng.choice(["'a\\nb'", '"a\\r\\nb\\n"', "'\\n\\n\\n'", "'a\\rb'"])
+        return "@print" + sp() + str(i) + " + {" + lit + "}.count - 1"
     if k == "marker":
         return rng.choice(["---", "----", "-----------"]) if fancy else "---"
     if k == "offq":
